@@ -7,6 +7,8 @@
      dchain parent() chain of definition `row`           -> got = rows, innermost first
      nchain parent() chain of a variable/parameter name  -> got = rows (own = function of a parameter)
      full   full_name of definition `row`                -> got = <<>> (None) or <<code points>>
+            (mods = the dotted paths under which the file is importable given the sys.path
+             the Script works with; any of them counts as "the module's import path")
    Every failing event is reported (<<"REJECT", tid, l, why>>); ACCEPT only if none failed. *)
 EXTENDS Naturals, Sequences, FiniteSets, TLC, Json, IOUtils
 
@@ -18,14 +20,15 @@ Traces == JsonDeserialize(IOEnv.TRACE_FILE)
 VARIABLES tid, l, bad
 
 TabOf(t) == Traces[t][1].scopes
-ModOf(t) == Traces[t][1].mod
+ModOf(t) == Traces[t][1].mods
 Ev == Traces[tid][l]
 
 EvOK(tab, mod, ev) ==
   CASE ev.k = "ctx"    -> ev.got \in Allowed(tab, <<ev.l, ev.c>>)
     [] ev.k = "dchain" -> ev.got = RefChain(tab, ev.row)
     [] ev.k = "nchain" -> ev.got = RefNameChain(tab, <<ev.l, ev.c>>, ev.own)
-    [] ev.k = "full"   -> (FullJudged(tab, ev.row) => ev.got = <<RefFull(tab, mod, ev.row)>>)
+    [] ev.k = "full"   -> (FullJudged(tab, ev.row) =>
+                             \E m \in 1..Len(mod) : ev.got = <<RefFull(tab, mod[m], ev.row)>>)
     [] OTHER -> FALSE
 Why(tab, mod, ev) ==
   CASE ev.k = "ctx" -> <<"ctx", (IF HeaderOf(tab, <<ev.l, ev.c>>) = {} THEN "body" ELSE "header"),
@@ -33,7 +36,7 @@ Why(tab, mod, ev) ==
     \* (kept short: TLC wraps long values over several lines)
     [] ev.k = "dchain" -> <<"parent-chain", "def", Len(RefChain(tab, ev.row))>>
     [] ev.k = "nchain" -> <<"parent-chain", "name", Len(RefNameChain(tab, <<ev.l, ev.c>>, ev.own))>>
-    [] ev.k = "full" -> <<"full-name", (IF ev.got = <<>> THEN "none" ELSE "wrong"), Len(RefFull(tab, mod, ev.row))>>
+    [] ev.k = "full" -> <<"full-name", (IF ev.got = <<>> THEN "none" ELSE "wrong"), Len(RefFull(tab, mod[1], ev.row))>>
     [] OTHER -> <<"unknown-event">>
 
 TInit == /\ tid \in 1..Len(Traces) /\ l = 2 /\ bad = FALSE /\ prog = <<>> /\ unit = 0
